@@ -30,8 +30,13 @@ def stream(chk):
     return out
 
 
-def correspondence(chk, links=cl.LINKS, with_oracle=True):
-    """exact trace differential (every recursive call's `clusters` dictionary) + property oracle"""
+def st_str(states):
+    return ' / '.join(' '.join('%d:%s' % (k, ','.join(map(str, v))) for k, v in st) for st in states)
+
+
+def correspondence(chk, links=cl.LINKS, with_oracle=True, record=None):
+    """exact trace differential (every recursive call's `clusters` dictionary) + property oracle.
+    With `record` (a dict) the verdict per linkage is stored instead of being registered as an obligation."""
     drv = common.Driver()
     cases = stream(chk)
     for link in links:
@@ -58,6 +63,9 @@ def correspondence(chk, links=cl.LINKS, with_oracle=True):
         detail = 'cases=%d family member (lastMin, unordered)=%r' % (len(cases), ident)
         if ident and ident != FAMILY[0]:
             chk.notes.append('%s identified as family member %r' % (link, ident))
+        if record is not None:
+            record[link] = (ident is not None, detail, (cases[bad0[0]], reals[bad0[0]][0], models0[bad0[0]]) if ident is None else None)
+            continue
         chk.obligation('correspondence:trace:%s' % link, 'correspondence', ident is not None and not fails, detail)
         for m, t, e in fails[:2]:
             m2, t2 = shrink_matrix(link, m, t)
@@ -161,13 +169,17 @@ def textbook_check(chk):
 
 
 def threshold_pairs(chk):
-    """C10 on the real code: partition refinement and prefix of the recorded merge sequence"""
+    """C10: tie (a) = on the real code the recorded state sequence at t1 is a prefix of the one at t2 and every
+    recorded step is a merge of two entries (checked by the Lean predicate chainOkb; theorem C10_of_observed);
+    tie (b) = exact trace correspondence with the concrete model (theorem C10_refines).  Shown if (a) or (b)."""
     rng = chk.rng
-    fails, badp = [], []
+    tie_b = {}
+    correspondence(chk, with_oracle=False, record=tie_b)
+    drv = common.Driver()
     n = chk.n(600, 20000)
+    per = {l: {'fails': [], 'badp': [], 'chains': [], 'n': 0} for l in cl.LINKS}
     for _ in range(n):
         m, t1 = cl.gen_matrix(rng, maxn=chk.n(8, 12), exact=rng.random() < 0.6)
-        _, t2 = cl.gen_matrix(rng, maxn=2)
         vals = sorted(set(v for r in m for v in r))
         t2 = rng.choice(vals + [t1, t1 + 1.0, 2 * max(vals) if vals else 1.0])
         t1, t2 = min(t1, t2), max(t1, t2)
@@ -175,20 +187,32 @@ def threshold_pairs(chk):
             s1, f1 = cl.real_trace(link, m, t1)
             s2, f2 = cl.real_trace(link, m, t2)
             chk.count(('pair', link, tuple(map(tuple, m)), t1, t2), len(f1) != len(f2), branch='threshold-pair:' + link)
+            per[link]['n'] += 1
             if not cl.refines([v for _, v in f1], [v for _, v in f2]):
-                fails.append((link, m, t1, t2, f1, f2))
-            if s2[:len(s1)] != s1:
-                badp.append((link, m, t1, t2))
-    chk.obligation('correspondence:merge sequence at t1 is a prefix of the one at t2 (real code)', 'correspondence',
-                   not badp and not fails, 'pairs=%d prefix-failures=%d refinement-failures=%d' % (3 * n, len(badp), len(fails)))
-    for f in fails[:2]:
-        chk.violation('flat_cluster(%s): clusters at t1=%r are not nested in clusters at t2=%r' % (f[0], f[2], f[3]),
-                      {'kind': 'threshold-pair', 'link': f[0], 'matrix': f[1], 't1': f[2], 't2': f[3], 'at_t1': f[4], 'at_t2': f[5]})
-    if badp and not fails:
-        b = badp[0]
-        chk.violation('flat_cluster(%s): merge sequence depends on the threshold; no nesting failure found' % b[0],
-                      {'kind': 'threshold-pair', 'link': b[0], 'matrix': b[1], 't1': b[2], 't2': b[3],
-                       'broken': 'correspondence:prefix'}, found_input=False)
+                per[link]['fails'].append((link, m, t1, t2, f1, f2))
+            if s2[:len(s1)] != s1 or s2[-1] != f2 or s1[-1] != f1:
+                per[link]['badp'].append((link, m, t1, t2))
+            per[link]['chains'].append((s2, m, t1, t2))
+    for link in cl.LINKS:
+        p = per[link]
+        outs = drv.ask_many(['chainok|' + st_str(s2) for s2, _, _, _ in p['chains']])
+        badc = [c for c, o in zip(p['chains'], outs) if o != 'ok']
+        tie_a = not p['badp'] and not badc
+        ok_b, detail_b, ex_b = tie_b[link]
+        chk.obligation('correspondence:C10:%s' % link, 'correspondence', (tie_a or ok_b) and not p['fails'],
+                       'pairs=%d tie(a) threshold-independent merge sequence on the real code (prefix + merge steps): %s; '
+                       'tie(b) exact trace == model: %s' % (p['n'], 'holds' if tie_a else 'BROKEN(prefix %d, steps %d)' % (len(p['badp']), len(badc)),
+                                                            'holds' if ok_b else 'BROKEN'))
+        for f in p['fails'][:2]:
+            chk.violation('flat_cluster(%s): clusters at t1=%r are not nested in clusters at t2=%r' % (f[0], f[2], f[3]),
+                          {'kind': 'threshold-pair', 'link': f[0], 'matrix': f[1], 't1': f[2], 't2': f[3], 'at_t1': f[4], 'at_t2': f[5]})
+        if not (tie_a or ok_b) and not p['fails']:
+            b = (p['badp'] or [(link,) + c[1:] for c in badc])[0]
+            chk.violation('flat_cluster(%s): merge sequence depends on the threshold / is not a sequence of merges, and differs '
+                          'from the model; no nesting failure found' % link,
+                          {'kind': 'threshold-pair', 'link': link, 'matrix': b[1], 't1': b[2], 't2': b[3],
+                           'broken': 'correspondence:C10:%s' % link}, found_input=False)
+    drv.close()
 
 
 def replay(chk, path):
